@@ -18,7 +18,7 @@ def run_case(c):
     try:
         k = c['crash_after']
         if c['kind'] == 'kill':
-            env = dict(os.environ, PYTHONPATH='/repo:' + core.VERIF, PYTHONWARNINGS='ignore')
+            env = dict(os.environ, PYTHONPATH=core.REPO + ':' + core.VERIF, PYTHONWARNINGS='ignore')
             p = subprocess.Popen(['/venv/bin/python', '-m', 'harness.sql_child', url, json.dumps(c['ops']), str(k)],
                                  stdout=subprocess.PIPE, stderr=subprocess.PIPE, text=True, env=env, cwd=core.VERIF)
             line = p.stdout.readline()
